@@ -230,14 +230,29 @@ def gen_bytes(r, ops, nops):
     return "T " + hx(data)
 
 
+def gen_header(r):
+    k = r.random()
+    name = "".join(r.choice("abc/._-\\ >\"<") for _ in range(r.choice([0, 1, 3, 8])))
+    pre = r.choice(["", "", " ", "\t ", "\\\n"])
+    if k < 0.35:
+        s = pre + "<" + name + r.choice([">", ">", "", "\n", "> x"])
+    elif k < 0.7:
+        s = pre + '"' + name.replace('"', "") + r.choice(['"', '"', "", "\n", '" x'])
+    else:
+        s = pre + "".join(r.choice(HOT) for _ in range(r.choice([0, 1, 2, 5])))
+    return "H " + hx(s)
+
+
 def gen_small(r):
     k = r.random()
     q = r.choice(["22", "27", "5c", "61"])
     s = "".join(r.choice(['"', "'", "\\", "a", "\n", "b"]) for _ in range(r.choice([0, 1, 2, 3, 6, 12])))
-    if k < 0.4:
+    if k < 0.3:
         return "E %s %s" % (q, hx(s))
-    if k < 0.8:
+    if k < 0.6:
         return "U %s %s" % (q, hx(s))
+    if k < 0.8:
+        return gen_header(r)
     return "G " + hx("".join(r.choice(["u", "8", "U", "L", "R", "u8", "x", ""]) for _ in range(r.choice([0, 1, 2, 3, 4]))))
 
 
@@ -273,6 +288,8 @@ CORPUS = [
     [T("// abc \\\nxyz\n q"), T("// abc"), T("//"), T("/**/"), T("/***/ /*/*/ x")],
     [T('u8"a"_km U\'b\'_x LR"(q)" uR"z(w)z"_s R"x(unterminated)y"'), T('"a\\\nb" \'\\\'\' "\\""'), "G 7538", "G 7552", "G 5275", "G 7575", "G 4c"],
     [T(""), T(" "), T("\n"), T(" \n "), T("a "), T("a\n"), T("\\\n"), T("a\x00b")],
+    ["H " + hx("<abc"), "H " + hx('"abc'), "H " + hx("<a/b.h> x"), "H " + hx(' "a.h"'), "H " + hx("<x\ny>"), "H " + hx("5"), "H -",
+     "H " + hx("abc"), "H " + hx("+x>"), "H " + hx("<a\\")],                                     # FL1 in getHeader
 ]
 
 
@@ -321,9 +338,10 @@ def main(argv):
                         raw += t.startswith("S:") and int(t.split(":")[1]) & 1
         ck.cov["counters"].update({"tokens_" + k: v for k, v in seen.items()})
         ck.cov["counters"].update({"tokens_raw_string": raw, "tokenizations_with_errors": errs})
-    kinds = {"R": 0, "T": 0, "E": 0, "U": 0, "G": 0}
+    kinds = {"R": 0, "T": 0, "E": 0, "U": 0, "G": 0, "H": 0}
     for h in hs:
         for o in h:
             kinds[o[0]] = kinds.get(o[0], 0) + 1
-    ck.cov["counters"].update({"ops_roundtrip": kinds["R"], "ops_bytes": kinds["T"], "ops_escape_unescape_encoding": kinds["E"] + kinds["U"] + kinds["G"]})
+    ck.cov["counters"].update({"ops_roundtrip": kinds["R"], "ops_bytes": kinds["T"], "ops_escape_unescape_encoding": kinds["E"] + kinds["U"] + kinds["G"],
+                               "ops_getHeader": kinds["H"]})
     ck.finish(META["level_text"])
